@@ -267,6 +267,15 @@ def get_arg_ctx_ast(
         if isinstance(node, (ast.Constant, ast.NameConstant)):
             # We can deal with some constant nodes
             return dds_hash(node.value)
+        elif (
+            isinstance(node, ast.UnaryOp)
+            and isinstance(node.op, (ast.USub, ast.UAdd))
+            and isinstance(node.operand, ast.Constant)
+            and type(node.operand.value) in (int, float)
+        ):
+            # A negative number is not a constant node but a sign applied to a constant
+            v = node.operand.value
+            return dds_hash(-v if isinstance(node.op, ast.USub) else v)
         else:
             # Cannot deal with it for the time being
             return None
